@@ -5,6 +5,7 @@ go 1.26.5
 require (
 	github.com/anishathalye/porcupine v1.3.0
 	github.com/apmckinlay/gsuneido v0.0.0
+	golang.org/x/time v0.15.0
 )
 
 require (
@@ -14,7 +15,6 @@ require (
 	golang.org/x/exp v0.0.0-20260611194520-c48552f49976 // indirect
 	golang.org/x/sys v0.47.0 // indirect
 	golang.org/x/text v0.40.0 // indirect
-	golang.org/x/time v0.15.0 // indirect
 )
 
 replace github.com/apmckinlay/gsuneido => /repo
